@@ -345,6 +345,34 @@ def nonreflexive(evs):
             yield ev
 
 
+def wide_component_jobs(t):
+    """Four or five root variables whose ancestral sets are linked only through bidirected edges, for EVERY insertion
+    order of those edges (the merging of ancestral sets walks the edges in insertion order): spanning trees of
+    bidirected edges on 4 nodes (all 16, all 6 edge orders), the 5-node path (all 24 orders), each also with one
+    directed edge; W* = all nodes (factual), X* = none / all / every single one."""
+    nodes4, nodes5 = ("A", "B", "C", "D"), ("A", "B", "C", "D", "E")
+    out = []
+    pairs = list(itt.combinations(nodes4, 2))
+    for tree in itt.combinations(pairs, 3):
+        if len(GSpec(nodes4, (), tree).districts()) != 1:
+            continue
+        for order in itt.permutations(tree):
+            for di in ((), (("A", "B"),), (("D", "C"),)):
+                out.append(GSpec(nodes4, di, tuple(order)))
+    path5 = (("A", "B"), ("B", "C"), ("C", "D"), ("D", "E"))
+    for order in itt.permutations(path5):
+        out.append(GSpec(nodes5, (), tuple(order)))
+        out.append(GSpec(nodes5, (("A", "C"),), tuple(order)))
+    if t == "quick":
+        out = out[seed() % 2 :: 2]
+    jobs = []
+    for g in out:
+        roots = tuple((n, ()) for n in g.nodes)
+        items = [(roots, ()), (roots, roots)] + [(roots, (r,)) for r in roots]
+        jobs.append((g, items))
+    return jobs
+
+
 def jobs_for(t):
     jobs = []
     to = 10000 if t == "quick" else 30000
@@ -367,6 +395,8 @@ def jobs_for(t):
         add(g, "components", component_inputs(g.nodes, stride=(64 if t == "quick" else 8), offset=seed()))
         if max(len(g.parents(n)) for n in g.nodes) <= 2:
             add(g, "factorize", nonreflexive(events(g.nodes, 1, 1)))
+    for g, items in wide_component_jobs(t):
+        add(g, "components", items)
     for name in ("fig9", "frontdoor", "napkin", "verma"):
         g = CURATED[name]
         add(g, "minimize", atom_keys(g.nodes, 2))
@@ -386,6 +416,7 @@ def run() -> int:
     ]
     rep.bounds = {
         "graphs": "ADMGs <=3 nodes exhaustive (quick: one labelling), a slice of the 4-node classes (quick 1/16, thorough 1/2), curated fig. 9 / front-door / napkin / Verma",
+        "wide_components": "4-5 factual root variables on graphs whose bidirected edges form a spanning tree (4 nodes: all 16 trees) or a path (5 nodes), under EVERY insertion order of the bidirected edges, with and without one directed edge; X* = none / all / each single root (quick: every second graph)",
         "components": "W* of 1-3 variables with <=1 subscript each (one world per variable), every X* subset of W* (3-variable W*: a stride)",
         "minimize": "every (Y, subscript set) with <=2-3 subscripted variables, all polarities, reflexive subscripts included",
         "simplify": "events of <=3 atoms, subscripts <=1, repeated variables with equal or conflicting values included (3-atom events: a stride)",
